@@ -38,4 +38,23 @@ theorem fmod_fmod_sub (a b m : Rat) (hm : m ≠ 0) : fmod (fmod a m - b) m = fmo
   have := fmod_fmod_add a (-b) m hm
   simpa [Rat.sub_eq_add_neg] using this
 
+/-- a NEGATIVE modulo: Python's floored `%` gives a result in `(m, 0]` -/
+theorem fmod_nonpos (a m : Rat) (hm : m < 0) : fmod a m ≤ 0 := by
+  unfold fmod
+  have hm' : (0:Rat) < -m := by grind
+  have h1 := Rat.floor_le (a / m)
+  have h2 := Rat.mul_le_mul_of_nonneg_right h1 (Rat.le_of_lt hm')
+  have h3 : a / m * m = a := Rat.div_mul_cancel (by grind)
+  grind
+
+theorem fmod_gt (a m : Rat) (hm : m < 0) : m < fmod a m := by
+  unfold fmod
+  have hm' : (0:Rat) < -m := by grind
+  have h1 := Rat.lt_floor_add_one (a / m)
+  have h2 := Rat.mul_lt_mul_of_pos_right h1 hm'
+  have h3 : a / m * m = a := Rat.div_mul_cancel (by grind)
+  have h4 : (((a / m).floor + 1 : Int) : Rat) = ((a / m).floor : Rat) + 1 := by
+    simp [Rat.intCast_add]
+  grind
+
 end Edzed.Counter
